@@ -5,6 +5,7 @@ package core
 import (
 	"encoding/json"
 	"fmt"
+	"math"
 	"math/big"
 	"os"
 	"strings"
@@ -92,6 +93,26 @@ type c02TreeState struct {
 	totalSeen bool
 	hi        int64
 	log       []string
+	// built-in default/system groups (TestVerifC02TreeBuiltin only)
+	builtinPods map[string][]c02Pod
+	avail       [2]int64 // cluster total minus what assigned default/system pods use, as last computed
+}
+
+// noteAvail recomputes what the root has to divide: cluster total - requests of the assigned default/system pods.
+func (st *c02TreeState) noteAvail() {
+	na := st.total
+	for _, name := range c02BuiltinNames {
+		for _, p := range st.builtinPods[name] {
+			if p.Assigned {
+				na[0] -= p.Req[0]
+				na[1] -= p.Req[1]
+			}
+		}
+	}
+	if na != st.avail {
+		st.totalSeen = true // koordinator stores totalResourceExceptSystemAndDefaultUsed only when it changes
+	}
+	st.avail = na
 }
 
 func (st *c02TreeState) children(parent string) []*c02Quota {
@@ -132,7 +153,26 @@ func c02Qty(rl corev1.ResourceList, d int) int64 {
 
 func TestVerifC02Tree(t *testing.T) {
 	rec := vk.New(t, "C02", "tree")
-	rapid.Check(t, func(t *rapid.T) {
+	rapid.Check(t, c02TreeCase(rec, false))
+}
+
+// TestVerifC02TreeBuiltin is the same history generator and oracle, plus pods in the built-in default / system quota
+// groups (pods without a quota label land there) and built-in group maxima of different sizes, including the
+// scheduler's production default MaxInt64/5. Documented treatment of these two groups (GroupQuotaManager field comments,
+// comment of redistribution(), refreshRuntimeNoLock): they are not part of the division — their runtime is their max —
+// and what the root divides among its real children is the cluster total minus what the pods assigned in the default
+// and system groups use. So at the first level the oracle is applied to the real root children only, with
+// total = cluster total - sum of the requests of the assigned default/system pods, both taken from the harness model.
+// (A separate test function so that the draw sequence of TestVerifC02Tree, and with it its regress files, stays as is.)
+func TestVerifC02TreeBuiltin(t *testing.T) {
+	rec := vk.New(t, "C02", "treeBuiltin")
+	rapid.Check(t, c02TreeCase(rec, true))
+}
+
+var c02BuiltinNames = []string{extension.DefaultQuotaName, extension.SystemQuotaName}
+
+func c02TreeCase(rec *vk.Rec, builtin bool) func(t *rapid.T) {
+	return func(t *rapid.T) {
 		c := rec.Begin()
 		defer c.End()
 
@@ -146,7 +186,7 @@ func TestVerifC02Tree(t *testing.T) {
 			defer func() { _ = gate.Set(fmt.Sprintf("%s=false", features.ElasticQuotaGuaranteeUsage)) }()
 		}
 		sc := rapid.SampledFrom([]c02Scale{{"tiny", 12}, {"tiny", 12}, {"small", 100}, {"milli", 1_000_000}, {"mem-2^40", 1 << 40}, {"huge-2^57", 1 << 57}}).Draw(t, "scale")
-		st := &c02TreeState{byName: map[string]*c02Quota{}, hi: sc.Hi}
+		st := &c02TreeState{byName: map[string]*c02Quota{}, hi: sc.Hi, builtinPods: map[string][]c02Pod{}}
 		hi := sc.Hi
 
 		// ---- tree shape and values, top-down so that children's mins fit into the parent's min
@@ -196,8 +236,23 @@ func TestVerifC02Tree(t *testing.T) {
 		}
 		addLevel(nil, 1, rapid.SampledFrom([]int{1, 2, 2, 3, 3, 4}).Draw(t, "topLevel"))
 
-		sysMax := c02ResList(1<<60, 1<<60)
-		gqm := NewGroupQuotaManager("", scaleMin, sysMax, sysMax)
+		sysMax, defMax := c02ResList(1<<60, 1<<60), c02ResList(1<<60, 1<<60)
+		builtinMaxKind := "2^60"
+		if builtin {
+			gen := func(label string) corev1.ResourceList {
+				switch rapid.SampledFrom([]string{"production", "production", "small", "small", "2^60"}).Draw(t, label+"Kind") {
+				case "production": // pkg/scheduler/apis/config/v1/defaults.go: MaxInt64/5 cores, MaxInt64/5 bytes
+					builtinMaxKind = "production-MaxInt64/5"
+					return corev1.ResourceList{corev1.ResourceCPU: *resource.NewQuantity(math.MaxInt64/5, resource.DecimalSI),
+						corev1.ResourceMemory: *resource.NewQuantity(math.MaxInt64/5, resource.BinarySI)}
+				case "small":
+					return c02ResList(c02Val(t, hi, label+"Cpu"), c02Val(t, hi, label+"Mem"))
+				}
+				return c02ResList(1<<60, 1<<60)
+			}
+			sysMax, defMax = gen("systemMax"), gen("defaultMax")
+		}
+		gqm := NewGroupQuotaManager("", scaleMin, sysMax, defMax)
 		for _, q := range st.quotas {
 			if err := gqm.UpdateQuota(c02QuotaObject(q)); err != nil {
 				t.Fatalf("UpdateQuota(%s): %v", q.Name, err)
@@ -238,11 +293,27 @@ func TestVerifC02Tree(t *testing.T) {
 				corev1.ResourceMemory: *resource.NewQuantity(nt[1]-st.total[1], resource.BinarySI),
 			}
 			gqm.UpdateClusterTotalResource(delta)
-			if nt != st.total {
-				st.totalSeen = true
-			}
 			st.total = nt
+			st.noteAvail()
 			st.logf("total=%v", nt)
+		}
+		addBuiltinPod := func(label string) {
+			name := rapid.SampledFrom([]string{extension.DefaultQuotaName, extension.DefaultQuotaName, extension.SystemQuotaName}).Draw(t, label+"Group")
+			p := c02Pod{Name: fmt.Sprintf("bp%d", len(st.log)), Assigned: rapid.IntRange(0, 2).Draw(t, label+"Assigned") != 0}
+			for d := 0; d < 2; d++ {
+				switch rapid.IntRange(0, 2).Draw(t, label+"ReqMode") {
+				case 0: // a noticeable part of the cluster
+					p.Req[d] = c02Val(t, c02Max64(0, st.total[d]), label+"ReqOfTotal")
+				case 1:
+					p.Req[d] = rapid.Int64Range(0, 9).Draw(t, label+"ReqSmall")
+				default:
+					p.Req[d] = c02Val(t, hi, label+"ReqAny")
+				}
+			}
+			st.builtinPods[name] = append(st.builtinPods[name], p)
+			gqm.OnPodAdd(name, c02PodObject(name, p))
+			st.noteAvail()
+			st.logf("podAdd %s %+v", name, p)
 		}
 		podSeq := 0
 		addPod := func(q *c02Quota, label string) {
@@ -281,15 +352,37 @@ func TestVerifC02Tree(t *testing.T) {
 			}
 		}
 
+		if builtin {
+			for k := rapid.SampledFrom([]int{0, 1, 1, 2}).Draw(t, "builtinPods"); k > 0; k-- {
+				addBuiltinPod(fmt.Sprintf("bpod%d", k))
+			}
+		}
+
 		// ---- further events
+		opKinds := []string{"refresh", "refresh", "podAdd", "podAdd", "podDelete", "total", "min", "max", "weight", "toggleLent", "deleteLeaf", "reparent", "reparent"}
+		if builtin {
+			opKinds = append(opKinds, "builtinPodAdd", "builtinPodAdd", "builtinPodDelete")
+		}
 		nOps := rapid.IntRange(0, 8).Draw(t, "nOps")
 		sawUpdate, sawMidRefresh, sawToggle := false, false, false
 		sawReparent, sawReparentScaling, sawReparentSubtree := false, false, false
+		builtinPresent := false
 		for op := 0; op < nOps; op++ {
 			l := fmt.Sprintf("op%d", op)
 			live := st.live()
 			q := live[rapid.IntRange(0, len(live)-1).Draw(t, l+"Q")]
-			switch rapid.SampledFrom([]string{"refresh", "refresh", "podAdd", "podAdd", "podDelete", "total", "min", "max", "weight", "toggleLent", "deleteLeaf", "reparent", "reparent"}).Draw(t, l+"Kind") {
+			switch rapid.SampledFrom(opKinds).Draw(t, l+"Kind") {
+			case "builtinPodAdd":
+				addBuiltinPod(l + "bpod")
+			case "builtinPodDelete":
+				name := rapid.SampledFrom(c02BuiltinNames).Draw(t, l+"Group")
+				if ps := st.builtinPods[name]; len(ps) > 0 {
+					i := rapid.IntRange(0, len(ps)-1).Draw(t, l+"BPod")
+					gqm.OnPodDelete(name, c02PodObject(name, ps[i]))
+					st.logf("podDelete %s %s", name, ps[i].Name)
+					st.builtinPods[name] = append(ps[:i:i], ps[i+1:]...)
+					st.noteAvail()
+				}
 			case "refresh":
 				gqm.RefreshRuntime(q.Name)
 				st.logf("refresh %s", q.Name)
@@ -470,6 +563,22 @@ func TestVerifC02Tree(t *testing.T) {
 		c.ClassIf(sawReparent, "reparent")
 		c.ClassIf(sawReparentScaling, "reparent-with-scaling-relevant-mins")
 		c.ClassIf(sawReparentSubtree, "reparent-of-a-subtree")
+		if builtin {
+			nb, nbAssigned := 0, 0
+			for _, name := range c02BuiltinNames {
+				for _, p := range st.builtinPods[name] {
+					nb++
+					if p.Assigned {
+						nbAssigned++
+					}
+				}
+			}
+			c.Class("builtin-max:" + builtinMaxKind)
+			c.ClassIf(nb > 0, "builtin-group-has-pod")
+			c.ClassIf(nbAssigned > 0, "builtin-group-has-assigned-pod")
+			c.ClassIf(st.avail[0] < 0 || st.avail[1] < 0, "builtin-usage-exceeds-cluster-total")
+			builtinPresent = nb > 0
+		}
 		depth := 1
 		for _, q := range live {
 			dd := 1
@@ -504,7 +613,9 @@ func TestVerifC02Tree(t *testing.T) {
 			for d := 0; d < 2; d++ {
 				var total int64
 				if pn == extension.RootQuotaName {
-					total = c02Qty(gqm.totalResourceExceptSystemAndDefaultUsed, d)
+					// independent: cluster total minus what the assigned default/system pods use (harness model)
+					total = st.avail[d]
+					c.ClassIf(total != c02Qty(gqm.totalResourceExceptSystemAndDefaultUsed, d), "root-total-of-manager-differs-from-model(see violation if any)")
 				} else {
 					total = c02Qty(gqm.quotaInfoMap[pn].CalculateInfo.Runtime, d)
 				}
@@ -543,7 +654,7 @@ func TestVerifC02Tree(t *testing.T) {
 				}
 				ruleTotal := total
 				if pn == extension.RootQuotaName {
-					ruleTotal = st.total[d] // no pods in the default/system quota: the first level divides the cluster total
+					ruleTotal = st.avail[d] // the first level divides the cluster total minus the default/system pods' usage
 				}
 				ruleOn := scaleMin
 				if pn == extension.RootQuotaName && !st.totalSeen {
@@ -614,6 +725,7 @@ func TestVerifC02Tree(t *testing.T) {
 					nt = true
 				}
 				c.ClassIf(pn != extension.RootQuotaName && sh.Left.Sign() > 0 && sh.PosBorrowers >= 1, "inner-level-with-leftover")
+				c.ClassIf(builtinPresent && pn == extension.RootQuotaName && sh.Left.Sign() > 0 && sh.PosBorrowers >= 1, "builtin-pod-and-root-level-leftover-with-weighted-borrower")
 				levels = append(levels, levelOut{pn, d, total, sibs, rt})
 				if sig, msg := c02CheckBig(sibs, total, rt); sig != "" {
 					// Diagnosis only (does not decide pass/fail): if the parent's calculator works on a copy of a child's
@@ -654,6 +766,26 @@ func TestVerifC02Tree(t *testing.T) {
 							tsig = "tree:stale-" + strings.Join(vk.SortedKeys(stale), "+") + "-in-parent-calculator"
 						}
 					}
+					// Diagnosis only: the built-in default/system group sits as a node in the root calculator once it has a pod. It
+					// must not hold any of the root's capacity there (its usage is already taken out of the root total and its
+					// runtime is its max); if it does, say through which input.
+					if pn == extension.RootQuotaName {
+						if calc := gqm.runtimeQuotaCalculatorMap[pn]; calc != nil && calc.quotaTree[resName] != nil {
+							for _, bn := range c02BuiltinNames {
+								if ok, nd := calc.quotaTree[resName].find(bn); ok && nd.runtimeQuota != 0 {
+									via := "other"
+									switch {
+									case nd.guarantee > 0 || nd.min > 0:
+										via = "guarantee"
+									case nd.sharedWeight != 0:
+										via = "shared-weight"
+									}
+									tsig = "tree:builtin-group-holds-root-capacity-via-" + via
+									diag += fmt.Sprintf(" [root calculator node of %s: request=%d min=%d guarantee=%d weight=%d -> runtime=%d]", bn, nd.request, nd.min, nd.guarantee, nd.sharedWeight, nd.runtimeQuota)
+								}
+							}
+						}
+					}
 					if c.Violation(t, tsig, "children of %s, dimension %d (scaleMin=%v guaranteeUsage=%v): %s;%s %s; history=%q", pn, d, scaleMin, guaranteeUsage, msg, diag, c02Describe(sibs, total, rt), st.log) {
 						return
 					}
@@ -664,7 +796,7 @@ func TestVerifC02Tree(t *testing.T) {
 			c.NonTrivial(fmt.Sprint(levels))
 		}
 		c.Sample(map[string]any{"scaleMin": scaleMin, "guaranteeUsage": guaranteeUsage, "history": st.log, "levels": levels})
-	})
+	}
 }
 
 // c02ScaledMins is the harness's own statement of the min-scaling rule documented in
